@@ -1,26 +1,18 @@
-use fatfs_verif::ops::{Op, Run, RunCfg, Aspect};
-use fatfs_verif::vol::VolCfg;
+use std::io::Cursor;
 fn main() {
-    let v = VolCfg::from_preset(1);
-    let cs = v.cluster_size();
-    let ops = vec![
-        Op::CreateFile { via: 0, path: "t.bin".into(), keep: 1 },
-        Op::Write { h: 0, len: 3 * cs, seed: 1 },
-        Op::Flush { h: 0 },
-        Op::Seek { h: 0, whence: 0, off: cs as i64 },
-        Op::WriteRetry { h: 0, len: 40, seed: 5, k: 0, interrupted: false },
-        Op::Flush { h: 0 },
-    ];
-    let mut rc = RunCfg::new(&[Aspect::Panic]);
-    rc.flush_each = false;
-    let mut run = Run::new(&rc, &v).unwrap();
-    for (i, op) in ops.iter().enumerate() {
-        if matches!(op, Op::WriteRetry { .. }) { run.dev.with(|d| { d.log_calls = true; d.log.clear(); }); }
-        let r = run.exec(i, op);
-        if matches!(op, Op::WriteRetry { .. }) { for c in run.dev.with(|d| d.log.clone()) { println!("{:?}", c); } }
-        println!("{:?} -> {:?} trace {:?}", op, r.map_err(|e| e.msg), run.trace.classes.keys().filter(|k| k.contains("write_") || k.contains("fault")).collect::<Vec<_>>());
-    }
-    let dec = run.dev.with_store(|s| fatfs_verif::refdec::decode(s, fatfs_verif::refdec::DecodeOpts::default())).unwrap();
-    println!("findings {:?}", dec.findings);
-    for o in &dec.objects { println!("{} {:?}", o.path, o.clusters); }
+    let mut img = fatfs::StdIoWrapper::new(Cursor::new(vec![0u8; 1 << 20]));
+    fatfs::format_volume(&mut img, fatfs::FormatVolumeOptions::new()).unwrap();
+    let fs = fatfs::FileSystem::new(img, fatfs::FsOptions::new()).unwrap();
+    let root = fs.root_dir();
+    let s128 = "s".repeat(128);
+    root.create_file(&s128).unwrap();
+    let long_s = "\u{17f}".repeat(128); // 256 bytes
+    println!("create_file(256-byte name folding onto an existing one): {:?}", root.create_file(&long_s).map(|_| ()));
+    println!("create_dir: {:?}", root.create_dir(&long_s).map(|_| ()));
+    root.create_file("other").unwrap();
+    println!("rename onto it: {:?}", root.rename("other", &root, &long_s));
+    let s300 = "S".repeat(128) + ":";
+    println!("open with invalid char: {:?}", root.create_file(&s300).map(|_| ()));
+    let n = root.iter().count();
+    println!("entries {}", n);
 }
